@@ -797,34 +797,56 @@ def _is_snapshot_map(R, t, b=None):
     return False
 
 
+def _sn_results(sn):
+    """result tuples of the snapshot function: list of (Site, map term, flag term)"""
+    out = []
+    for s in sn.assigns():
+        if s.node["place"]["l"] == 0 and not s.node["place"]["p"] and s.node["rv"]["k"] == "agg" and s.node["rv"]["kind"] == "tuple" and len(s.node["rv"]["ops"]) == 2:
+            a, b_ = s.node["rv"]["ops"]
+            fa, fb = arg_ty(sn, a).get("prim") == "bool", arg_ty(sn, b_).get("prim") == "bool"
+            if fb and not fa:
+                out.append((s, a, b_))
+            elif fa and not fb:
+                out.append((s, b_, a))
+    return out
+
+
 def _snapshot_flag(r, R):
     sn = R.sn
-    # the bool component of the result
-    flag_local = None
-    for s in sn.assigns():
-        if s.node["place"]["l"] == 0 and s.node["rv"]["k"] == "agg" and s.node["rv"]["kind"] == "tuple":
-            for o in s.node["rv"]["ops"]:
-                t = strip(term_of(sn, o))
-                if arg_ty(sn, o).get("prim") == "bool" and t[0] == "local":
-                    flag_local = t[1]
+    res = _sn_results(sn)
     ok = False
     why = "the pre-existence flag of the snapshot function was not recognised"
-    if flag_local is not None:
-        sets = [(s, s.node["rv"]["op"]["const"].get("bool")) for s in sn.defs().get(flag_local, []) if s.si is not None and s.node["rv"]["k"] == "use" and "const" in s.node["rv"]["op"]]
-        trues = [s for s, v in sets if v is True]
-        falses = [s for s, v in sets if v is False]
-        ok = len(trues) == 1 and len(sets) == len(sn.defs().get(flag_local, []))
-        if ok:
-            g = guards_of(sn, trues[0].bb)
-            ok = len(g) == 1 and g[0][0] == "enum" and g[0][1] == "std::option::Option" and g[0][2] == ("arg", 1) and g[0][3] == "Some"
-            # the Some arm always sets it
-            sw_bb = [a for (a, s) in sn.control_deps().get(trues[0].bb, ())]
-            ok = ok and bool(falses) and all(sn.dominates(f.bb, trues[0].bb) or f.bb == trues[0].bb for f in falses)
-            why = "flag = (the child already exists): set to true exactly in the Some arm, false initially" if ok else "flag guards: %s" % [guard_s(x) for x in g]
+    consts = [(s, strip(term_of(sn, f))) for (s, m, f) in res]
+    if len(res) >= 2 and all(t[0] == "const" and isinstance(t[1], bool) for _, t in consts):
+        # one result tuple per alternative: (.., true) exactly under Some(tag), (.., false) under None
+        good = True
+        seen = set()
+        for (s, t) in consts:
+            g = guards_of(sn, s.bb)
+            opt = [x for x in g if x[0] == "enum" and x[1] == "std::option::Option" and x[2] == ("arg", 1)]
+            if len(opt) != 1 or (opt[0][3] == "Some") != t[1]:
+                good = False
+            seen.add(t[1])
+        ok = good and seen == {True, False}
+        why = "result is (snapshot, true) exactly when the child already exists and (.., false) otherwise" if ok else "flag constants are not tied to Some(tag)/None"
+    elif len(res) == 1:
+        t = strip(term_of(sn, res[0][2]))
+        flag_local = t[1] if t[0] == "local" else None
+        if flag_local is not None:
+            sets = [(s, s.node["rv"]["op"]["const"].get("bool")) for s in sn.defs().get(flag_local, []) if s.si is not None and s.node["rv"]["k"] == "use" and "const" in s.node["rv"]["op"]]
+            trues = [s for s, v in sets if v is True]
+            falses = [s for s, v in sets if v is False]
+            ok = len(trues) == 1 and len(sets) == len(sn.defs().get(flag_local, []))
+            if ok:
+                g = guards_of(sn, trues[0].bb)
+                ok = len(g) == 1 and g[0][0] == "enum" and g[0][1] == "std::option::Option" and g[0][2] == ("arg", 1) and g[0][3] == "Some"
+                ok = ok and bool(falses) and all(sn.dominates(f.bb, trues[0].bb) or f.bb == trues[0].bb for f in falses)
+                why = "flag = (the child already exists): set to true exactly in the Some arm, false initially" if ok else "flag guards: %s" % [guard_s(x) for x in g]
     ob(r, "PM8a.pre-existence-flag", ("C01", "C03", "C06"), sn.name, ok, why, mir.line_of(sn.span), "PM8a|flag")
     rets = [s for s in sn.assigns() if s.node["place"]["l"] == 0 and not s.node["place"]["p"]]
-    ob(r, "PM9.single-result-path", ("C01", "C03", "C06"), sn.name, len(rets) == 1, "the snapshot function has a single result (snapshot, flag)" if len(rets) == 1 else
-       "the snapshot function has %d result paths: a side exit bypasses the checked snapshot loop" % len(rets), rets[0] if rets else None, "PM9|single-result")
+    okr = len(rets) == len(res) and len(res) in (1, 2)
+    ob(r, "PM9.single-result-path", ("C01", "C03", "C06"), sn.name, okr, "every result of the snapshot function is a (snapshot, flag) pair of the checked alternatives" if okr else
+       "the snapshot function has %d result paths, %d of them recognised: a side exit bypasses the checked snapshot" % (len(rets), len(res)), rets[0] if rets else None, "PM9|single-result")
 
 
 def pm9_snapshot(r, R):
@@ -832,6 +854,8 @@ def pm9_snapshot(r, R):
     sn = R.sn
     ins = [c for c in sn.calls() if _map_call(cname(c.node), "insert")]
     okn = len(ins) == 1
+    if not ins and _pm9_combinator_form(r, R):
+        return
     if not okn:
         ob(r, "PM9.snapshot-inserts", ("C01", "C03"), sn.name, False, "expected one insert into the snapshot, found %d" % len(ins), mir.line_of(sn.span), "PM9|count")
         return
@@ -870,6 +894,51 @@ def pm9_snapshot(r, R):
     ob(r, "PM9b.snapshot-every-mandatory", ("C03",), sn.name, ok_b and key_ok and val_ok and trav_ok,
        "every Mandatory child of the element is recorded as name -> its occurrence counter (full traversal, no other condition)" if ok_b and key_ok and val_ok and trav_ok else
        "other guards=%s key is child.name=%s value is child.count()=%s full traversal=%s" % ([guard_s(x) for x in others], key_ok, val_ok, trav_ok), c, "PM9b|all")
+
+
+def _pm9_combinator_form(r, R):
+    """snapshot built as tag.children().iter().filter_map(|c| match c { Mandatory(c) => Some((c.name.clone(), c.count())), _ => None }).collect()"""
+    sn = R.sn
+    cols = [c for c in sn.calls() if cname(c.node) == "std::iter::Iterator::collect" and (c.node["callee"].get("targs", [{}, {}])[1:] or [{}])[0].get("adt") in MAP_ADTS]
+    if len(cols) != 1:
+        return False
+    c = cols[0]
+    t = strip(term_of(sn, c.node["args"][0]))
+    chain = []
+    clo = None
+    while t[0] == "call" and t[2]:
+        chain.append(t[1])
+        if t[1] == "std::iter::Iterator::filter_map":
+            clo = strip(t[2][1])
+        t = strip(t[2][0])
+    allowed = {"std::iter::Iterator::filter_map", "std::iter::IntoIterator::into_iter", "core::slice::iter", "element::Element::children", "necessity::Necessity::inner_t"} | set(mir.TRANSPARENT_CALLS)
+    trav_ok = all(x in allowed for x in chain) and chain.count("std::iter::Iterator::filter_map") == 1 and "element::Element::children" in chain and \
+        t[0] == "proj" and t[1] == ("arg", 1)
+    cb = R.lib.bodies.get(clo[1]) if clo is not None and clo[0] in ("fn", "agg") else None
+    ok_a = ok_b = False
+    why = "filter_map closure not recognised"
+    if cb is not None:
+        somes = [s for s in cb.assigns() if s.node["place"]["l"] == 0 and s.node["rv"]["k"] == "agg" and s.node["rv"].get("variant") == "Some"]
+        nones = [s for s in cb.assigns() if s.node["place"]["l"] == 0 and s.node["rv"]["k"] == "agg" and s.node["rv"].get("variant") == "None"]
+        if len(somes) == 1 and nones:
+            g = guards_of(cb, somes[0].bb)
+            tag = [x for x in g if x[0] == "enum" and x[1] == "necessity::Necessity"]
+            ok_a = len(tag) == 1 and tag[0][3] == "Mandatory" and any(st == ("arg", 2) for st in mir.subterms(tag[0][2])) and len(g) == 1
+            pair = strip(term_of(cb, somes[0].node["rv"]["ops"][0]))
+            if pair[0] == "agg" and len(pair[3]) == 2:
+                k, v = [strip(x, mir.VALUE_PRESERVING) for x in pair[3].values()]
+                key_ok = k[0] == "proj" and k[2][-1][0] == "f" and k[2][-1][3] == "name" and any(st == ("arg", 2) for st in mir.subterms(k))
+                val_ok = v[0] == "call" and v[1].endswith("Element::count") and any(st == ("arg", 2) for st in mir.subterms(v))
+                ok_b = ok_a and key_ok and val_ok and trav_ok
+            ng = [guards_of(cb, n.bb) for n in nones]
+            why = "closure yields Some((child.name, child.count())) exactly for Mandatory children; full traversal of tag.children()"
+    ob(r, "PM9a.snapshot-only-mandatory", ("C01", "C03", "C06"), sn.name, ok_a, "a child is snapshotted only while it is Mandatory (filter_map form)" if ok_a else why, c, "PM9a|mandatory")
+    ob(r, "PM9b.snapshot-every-mandatory", ("C03",), sn.name, ok_b, why if ok_b else "filter_map/collect snapshot: traversal ok=%s, entries ok=%s" % (trav_ok, ok_b), c, "PM9b|all")
+    # the collected map is what the Some-alternative returns
+    res = _sn_results(sn)
+    okm = any(("call", c) in sn.origins(m) for (s, m, f) in res)
+    ob(r, "PM9.snapshot-inserts", ("C01", "C03"), sn.name, okm, "the collected map is the snapshot returned" if okm else "the collected map is not returned", c, "PM9|count")
+    return True
 
 
 def _is_loop_item(b, t, field_hint=None):
